@@ -387,15 +387,17 @@ theorem backup_lim {dir : String} {s : St} {L : Nat} {db0 : DB} (hs0 : s.db = so
   obtain ⟨⟨db, g, hs, hf, hsi, hlim, hb⟩, ⟨A, W, hbnd⟩, hmd⟩ := hj
   rw [hs0] at hs; cases hs
   refine ⟨?_, ⟨A, W, Bnd_backup hbnd dest (fun db' hs' => by rw [hs0] at hs'; cases hs'; rw [hd0]; exact h1)⟩, ?_⟩
-  · obtain ⟨X, e⟩ := backup_eq hs0 dest
+  · obtain ⟨W', e, hwd, _⟩ := backup_eq hs0 dest
     rw [e]
-    have hw : (s.world.set dest X).get db0.dir = s.world.get db0.dir :=
-      MergeP.get_set_ne _ _ _ _ (by rw [hd0]; exact fun e => h1 e.symm)
-    exact ⟨db0, g, hs0, ⟨by show DirOK (s.world.set dest X) db0.dir g; unfold DirOK; rw [hw]; exact hf.dir, hf.asc,
+    have hw : W'.get db0.dir = s.world.get db0.dir := hwd (by rw [hd0]; exact h1)
+    exact ⟨db0, g, hs0, ⟨by show DirOK W' db0.dir g; unfold DirOK; rw [hw]; exact hf.dir, hf.asc,
       hf.active, hf.recs⟩, hsi, hlim, hb⟩
-  · obtain ⟨X, e⟩ := backup_eq hs0 dest
+  · obtain ⟨W', e, _, hwm⟩ := backup_eq hs0 dest
     rw [e]
-    exact hmd.congr (MergeP.get_set_ne _ _ _ _ (fun e => h2 e.symm))
+    have hw2 : W'.get (mergeDirName dir) = s.world.get (mergeDirName dir) := by
+      have := hwm (by rw [hd0]; exact h1) (by rw [hd0]; exact h2)
+      rw [hd0] at this; exact this
+    exact hmd.congr hw2
 
 theorem restart_lim {dir : String} {s : St} {m : BSpec} {dead : Bool} {L : Nat} (hq : HInvQ dir s m dead)
     (hj : LimJ dir L s) (cfg' : Cfg) (hcfg : cfg'.Valid)
